@@ -262,6 +262,11 @@ func genFormula(t *rapid.T) (int, [][]int) {
 		}
 		cls = append(cls, cl)
 	}
+	if gen.Chance(t, 1, 12, "emptyClause") {
+		// an explicit empty clause ("0" alone): the problem is unsatisfiable, and the bare empty clause is a valid certificate
+		at := gen.Uniform(t, 0, len(cls), "emptyAt")
+		cls = append(append(append([][]int{}, cls[:at]...), []int{}), cls[at:]...)
+	}
 	return n, cls
 }
 
